@@ -99,7 +99,8 @@ def run(res, prop, tier, seed, work, replay=None):
                 # the process died in the pool's own code: the lifetimes recorded so far are still judged
                 fh.write(json.dumps({"kind": "panic", "seed": s, "sig": pan[0]}) + "\n")
                 races.setdefault(pan[0], pan[1])
-            elif len(lines) != count or (p.returncode != 0 and not reports and all(json.loads(x)["shutdownReturned"] for x in lines)):
+            elif (len(lines) != count and all(json.loads(x)["shutdownReturned"] for x in lines)) or \
+                    (p.returncode != 0 and not reports and all(json.loads(x)["shutdownReturned"] for x in lines)):
                 raise Infra("pool recorder failed (rc=%s, %d/%d records):\n%s" % (p.returncode, len(lines), count, "\n".join(
                     l for l in (p.stdout or "").splitlines() if not l.startswith("["))[-2500:]))
             for x in lines:
